@@ -89,7 +89,7 @@ Proof.
   intro I. unfold cbus_inv in *.
   destruct i as [h r|h|h|h' h|p r|p r|p r|r]; cbn [exec].
   - pose proof (add_match_inv r _ _ I) as A. destruct (add_match r (subs c) (evs c)). exact A.
-  - destruct (take_first h (held c)) as [[r hl]|]; [|exact I].
+  - destruct (take_last h (held c)) as [[r hl]|]; [|exact I].
     pose proof (remove_match_inv r _ _ I) as A. destruct (remove_match r (subs c) (evs c)). exact A.
   - exact I.
   - exact I.
@@ -161,14 +161,13 @@ Lemma live_snoc c h r0 r hl :
   hl = held c ++ [(h, r0)] -> count_rule r (map snd hl) = live c r + ind (lbeq r r0).
 Proof. intros ->. unfold live. rewrite map_app, count_rule_app. cbn [map snd]. rewrite count_rule_cons, count_rule_nil. lia. Qed.
 
-Lemma take_first_count h : forall l r0 l', take_first h l = Some (r0, l') ->
+Lemma take_last_count h : forall l r0 l', take_last h l = Some (r0, l') ->
   forall r, count_rule r (map snd l) = count_rule r (map snd l') + ind (lbeq r r0).
 Proof.
-  induction l as [|x t IH]; intros r0 l' H r; cbn [take_first] in H; [discriminate|].
-  destruct (holds h x).
-  - inversion H; subst. cbn [map]. rewrite count_rule_cons. lia.
-  - destruct (take_first h t) as [[r1 t']|]; [|discriminate]. inversion H; subst.
-    cbn [map]. rewrite !count_rule_cons. rewrite (IH r0 t' eq_refl r). lia.
+  induction l as [|x t IH]; intros r0 l' H r; cbn [take_last] in H; [discriminate|].
+  destruct (take_last h t) as [[r1 t']|].
+  - inversion H; subst. cbn [map]. rewrite !count_rule_cons. rewrite (IH r0 t' eq_refl r). lia.
+  - destruct (holds h x); [|discriminate]. inversion H; subst. cbn [map]. rewrite count_rule_cons. lia.
 Qed.
 
 Lemma drop_partition h r : forall l,
@@ -200,12 +199,12 @@ Proof.
     rewrite add_match_subs, (Base r). cbn [head_set ind].
     rewrite (live_snoc c h r0 r _ eq_refl). lia.
   - (* IAsyncDrop *)
-    destruct (take_first h (held c)) as [[r1 hl]|] eqn:TF.
+    destruct (take_last h (held c)) as [[r1 hl]|] eqn:TF.
     + destruct (remove_match r1 (subs c) (evs c)) as [s es] eqn:A. cbn [fst snd]. split; [|cbn [shape head_ok plain_instr orb andb]; exact Pl].
       intro r. unfold live; cbn [with_thr subs pend held thr]. rewrite owed_mid. cbn [head_set ind].
       replace s with (fst (remove_match r1 (subs c) (evs c))) by (rewrite A; reflexivity).
       rewrite remove_match_subs, (Base r). cbn [head_set ind]. unfold live.
-      rewrite (take_first_count h _ _ _ TF r). lia.
+      rewrite (take_last_count h _ _ _ TF r). lia.
     + cbn [fst snd]. split; [|exact ShRest]. intro r. cbn [with_thr subs pend held thr]. rewrite owed_mid, Hrest, (Base r).
       cbn [head_set ind]. reflexivity.
   - (* IDrop *)
